@@ -333,7 +333,10 @@ def check(prop, tier):
 
 def check_inner(prop, tier, cfg, seed, total, chunk, workers, tmp, t_start, bt):
     t_run = time.time()
-    runs, crashes = [], []
+    total_agg = aggregate([])
+    crashes = []
+    if tier == "thorough":
+        chunk *= 4
     chunks = [(a, min(a + chunk, total)) for a in range(0, total, chunk)]
     deadline = None
     wall_cap = float(os.environ.get("VERIF_WALL_CAP", cfg.get("wall_cap_" + tier, 0)) or 0)
@@ -349,20 +352,18 @@ def check_inner(prop, tier, cfg, seed, total, chunk, workers, tmp, t_start, bt):
             if r is None:
                 skipped += 1
                 continue
-            runs += r[0]
+            merge_agg(total_agg, r[0])
             crashes += r[1]
-    runs.sort(key=lambda r: r["i"])
     crashes.sort(key=lambda r: r["i"])
     run_wall = time.time() - t_run
 
     viols = []
-    for r in runs:
-        if r["st"] == "viol":
-            try:
-                r["plan"] = open(os.path.join(tmp, "viol.%d.plan" % r["i"])).read()
-            except OSError:
-                r["plan"] = ""
-            viols.append(r)
+    for r in sorted(total_agg["viols"], key=lambda r: r["i"]):
+        try:
+            r["plan"] = open(os.path.join(tmp, "viol.%d.plan" % r["i"])).read()
+        except OSError:
+            r["plan"] = ""
+        viols.append(r)
     viols += crashes
     viols.sort(key=lambda r: r["i"])
     if any(v["class"] == "INFRA" for v in viols):
@@ -411,11 +412,9 @@ def check_inner(prop, tier, cfg, seed, total, chunk, workers, tmp, t_start, bt):
             rc = 1
         reported.append(dict(cls=s[0], site=s[1], runs=n_same, replay=path, known=bool(k)))
 
-    write_evidence(prop, tier, cfg, seed, runs, crashes, viols, reported, run_wall, time.time() - t_start, bt, tmp, skipped * 1)
-    ok_runs = len(runs)
+    write_evidence(prop, tier, cfg, seed, total_agg, crashes, viols, reported, run_wall, time.time() - t_start, bt, tmp, skipped * 1)
     log("%s %s: %d runs (%d non-trivial, %d distinct) in %.1fs (+%.1fs build), %d violations%s" % (
-        prop, tier, ok_runs + len(crashes), sum(1 for r in runs if r["nt"] == "1"),
-        len(set(r["fp"] for r in runs if r["nt"] == "1")), run_wall, bt, len(viols),
+        prop, tier, total_agg["n"] + len(crashes), total_agg["nt"], len(total_agg["fps"]), run_wall, bt, len(viols),
         (", %d chunks skipped at wall cap" % skipped) if skipped else ""))
     return rc
 
@@ -423,7 +422,36 @@ def check_inner(prop, tier, cfg, seed, total, chunk, workers, tmp, t_start, bt):
 def run_chunk_guard(deadline, *a):
     if deadline and time.time() > deadline:
         return None
-    return run_chunk(*a)
+    runs, crashes = run_chunk(*a)
+    return aggregate(runs), crashes
+
+
+def aggregate(runs):
+    """per-chunk summary: only violations keep their per-run record (memory: thorough tiers run > 10^6 plans)"""
+    agg = dict(n=len(runs), nt=0, fps=set(), scheds=set(), probes={}, faults={}, unjudged={}, steps=0, simns=0, abs=0, viols=[])
+    for r in runs:
+        if r["nt"] == "1":
+            agg["nt"] += 1
+            agg["fps"].add(int(r["fp"], 16))
+        if r["sh"] != "0000000000000000":
+            agg["scheds"].add(int(r["sh"], 16))
+        for dst, key in ((agg["probes"], "probes"), (agg["faults"], "faults"), (agg["unjudged"], "unjudged")):
+            for k, v in r[key].items():
+                dst[k] = dst.get(k, 0) + v
+        agg["steps"] += int(r["steps"]); agg["simns"] += int(r["simns"]); agg["abs"] += int(r.get("abs", 0))
+        if r["st"] == "viol":
+            agg["viols"].append(r)
+    return agg
+
+
+def merge_agg(a, b):
+    a["n"] += b["n"]; a["nt"] += b["nt"]; a["fps"] |= b["fps"]; a["scheds"] |= b["scheds"]
+    for key in ("probes", "faults", "unjudged"):
+        for k, v in b[key].items():
+            a[key][k] = a[key].get(k, 0) + v
+    a["steps"] += b["steps"]; a["simns"] += b["simns"]; a["abs"] += b["abs"]
+    a["viols"] += b["viols"]
+    return a
 
 
 def summarise_plan(text, maxops=60):
@@ -437,40 +465,32 @@ def summarise_plan(text, maxops=60):
     return out
 
 
-def write_evidence(prop, tier, cfg, seed, runs, crashes, viols, reported, run_wall, wall, bt, tmp, skipped):
-    nt = [r for r in runs if r["nt"] == "1"]
-    probes, faults, unjudged = {}, {}, {}
-    for r in runs:
-        for dst, key in ((probes, "probes"), (faults, "faults"), (unjudged, "unjudged")):
-            for k, v in r[key].items():
-                dst[k] = dst.get(k, 0) + v
+def write_evidence(prop, tier, cfg, seed, agg, crashes, viols, reported, run_wall, wall, bt, tmp, skipped):
+    probes, faults, unjudged = agg["probes"], agg["faults"], agg["unjudged"]
     samples = []
     for fn in sorted(os.listdir(tmp)):
         if fn.startswith("sample.") and len(samples) < 3:
             samples.append(summarise_plan(open(os.path.join(tmp, fn)).read()))
     if not samples:
         samples.append(dict(note="no non-trivial sample among the first runs of chunk 0"))
-    steps = sum(int(r["steps"]) for r in runs)
-    simns = sum(int(r["simns"]) for r in runs)
-    scheds = set(r["sh"] for r in runs if r["sh"] != "0000000000000000")
     zero = [p for p in cfg.get("expect_probes", []) if probes.get(p, 0) == 0]
-    n_eval = len(runs) + len(crashes)
+    n_eval = agg["n"] + len(crashes)
     ev = dict(
         property_id=prop, tier=tier, seed=seed, level=cfg["level"], wall_s=round(wall, 2), violations=len(viols),
         coverage=dict(
             evaluations=n_eval,
-            distinct_nontrivial=len(set(r["fp"] for r in nt)),
+            distinct_nontrivial=len(agg["fps"]),
             rule=cfg["rule"],
             samples=samples,
-            nontrivial_runs=len(nt),
+            nontrivial_runs=agg["nt"],
             runs_per_hour=int(n_eval / run_wall * 3600) if run_wall > 0 else 0,
             run_wall_s=round(run_wall, 2), build_s=round(bt, 2),
             engine=cfg["engine"], variant=cfg["variant"],
             faults_fired=faults, probes_hit=probes, probes_expected_but_zero=zero,
             unjudged_aborted_histories=unjudged,
-            scheduling_steps=steps, distinct_schedules=len(scheds),
-            abstract_sched_states_sum=sum(int(r.get("abs", 0)) for r in runs),
-            simulated_seconds=round(simns / 1e9, 3),
+            scheduling_steps=agg["steps"], distinct_schedules=len(agg["scheds"]),
+            abstract_sched_states_sum=agg["abs"],
+            simulated_seconds=round(agg["simns"] / 1e9, 3),
             components=REAL_COMMON + cfg.get("stubs", []),
             violations_reported=reported,
             chunks_skipped_at_wall_cap=skipped,
